@@ -13,7 +13,7 @@ import re
 from common import *  # noqa
 
 PROP = "C03"
-TABLES = ["C03_AnsiSequences"]
+TABLES = ["C03_AnsiSequences", "C03_Regexes"]
 MODELS = [("c03", "Extract/ExC03.v", "run_C03_all")]
 
 ESC = "\x1b"
@@ -607,10 +607,10 @@ def main(tier):
                             "non-trivial = stream contains ESC, has more than one character and some key press was emitted; distinct by hash of the schedule"
                             % (len(PROBES), 7 if chk.tier == "thorough" else 6))
     chk.assumptions += ["the parser's pending prefix is read from the suspended generator's frame locals (gi_frame.f_locals['prefix']); the decoder's undecoded bytes from _stdin_decoder.getstate()[0]",
-                        "regex recognisers: gen/gen_t_c03.py pins the four pattern strings and flags, regenerates re's \\d class and checks '.' excludes only \\n over the whole code space; "
-                        "on this run cpr_re/mouse_re/cpr_prefix_re/mouse_prefix_re were compared with /repo's compiled regexes on EVERY string of length <= 3 over %r and on ESC [ + every tail of length <= %d over it (%d strings). "
-                        "Assumed beyond that scope: the recognisers depend on a character only through its class (\\d, ';', '<', 'M', 'm', 'R', newline, ESC, '[', other - each class has a representative, \\d has three incl. a non-ASCII one), "
-                        "and longer digit/';' runs behave like the runs of length <= %d covered (the recognisers are loops over skip_digits/skip_ds/forallb)" % (RE_ALPHA, 5 if chk.tier == "thorough" else 4, len(rs), 5 if chk.tier == "thorough" else 4),
+                        "regex recognisers: proved equal, for all strings, to the whole-string language of the regular-expression ASTs that gen/gen_t_c03.py regenerates from /repo's four pattern strings with re's own parser "
+                        "(re._parser.parse; unsupported syntax, flags other than re.UNICODE or missing ^...\\Z anchors fail closed; C03_*_is_regex); \\d is re's class regenerated over the whole code space, '.' is checked to exclude only \\n. "
+                        "Assumed: re.match on these anchored patterns accepts exactly that language (backtracking does not change acceptance) - tested on this run against /repo's compiled regexes on every string of length <= 3 over %r "
+                        "and on ESC [ + every tail of length <= %d over it (%d strings)" % (RE_ALPHA, 5 if chk.tier == "thorough" else 4, len(rs)),
                         "UTF-8: the Coq decoder (Model/C03_Vt100Input.v step/dec) was compared with the decoder PosixStdinReader constructs (utf-8, surrogateescape, incremental) on EVERY byte string of length <= %d over the %d class-boundary bytes %r (%d strings), text and undecoded tail; "
                         "assumed beyond: bytes strictly inside a class behave like its boundaries; other stdin encodings are not modelled" % (4 if chk.tier == "thorough" else 3, len(U8_ALPHA), [hex(b) for b in U8_ALPHA], len(us)),
                         "PosixStdinReader.read's select/os.read/closed handling and termios/raw mode of Vt100Input are outside the model (reads are modelled as the byte strings os.read returned)"]
